@@ -599,11 +599,17 @@ func Run(r *core.Run) {
 	var mu sync.Mutex
 	var wg sync.WaitGroup
 	skipMC := os.Getenv("C12_SKIPMC") != "" // development only
+	// the sequence families: with a fresh label table the label-first covering sample is drawn at once and computed with the sheets
+	cached := loadSeqLabels(r)
+	mcCfg := pickS(r, "CssMC.quick.cfg", "CssMC.thorough.cfg")
+	if cached == nil && !r.Thorough() {
+		mcCfg = "CssMC.quick.labels.cfg"
+	}
 	if !skipMC {
 		wg.Add(1)
 		go func() {
 			defer wg.Done()
-			runMC(r, pickS(r, "CssMC.quick.cfg", "CssMC.thorough.cfg"), r.Pick(4, 3), func(c *Case) {
+			runMC(r, mcCfg, r.Pick(4, 3), func(c *Case) {
 				var id []interface{}
 				json.Unmarshal(c.ID, &id)
 				c.Family = "mc"
@@ -639,8 +645,6 @@ func Run(r *core.Run) {
 		fmt.Sscan(v, &nSheets)
 	}
 	sheets := g.Sheets(nSheets, r.Pick(4, 5))
-	// the sequence families: with a fresh label table the label-first covering sample is drawn now and computed with the sheets
-	cached := loadSeqLabels(r)
 	var seqIn []genInput
 	var seqFam map[string]string
 	if cached != nil && !skipMC {
@@ -653,9 +657,7 @@ func Run(r *core.Run) {
 	var seqCases []*Case
 	if !skipMC {
 		if cached != nil {
-			if a, b := seqFingerprint(cached), seqFingerprint(mcMembers); a != b {
-				r.Infra("spec/css_seq_labels.quick.json does not equal the labels CssMC exported (%d / %d members)", len(cached), len(mcMembers))
-			}
+			r.Set("seq_label_table", "spec/css_seq_labels.quick.json (fresh: hash of the modules and configurations)")
 		} else if len(mcMembers) == 0 {
 			r.Infra("CssMC exported no members of the sequence families")
 		} else {
@@ -674,7 +676,7 @@ func Run(r *core.Run) {
 			r.Logf("CssGen: %d sequence-family members in %.1fs", len(seqIn), time.Since(t0).Seconds())
 		}
 		seqCases = seqCasesOf(r, seqIn, seqFam, got)
-		r.Logf("sequence families: %d members model-checked, %d cases", len(mcMembers), len(seqCases))
+		r.Logf("sequence families: %d cases", len(seqCases))
 	}
 	sort.Slice(mcCases, func(i, j int) bool { return mcCases[i].Name < mcCases[j].Name })
 	r.Set("mc_family_sheets", len(mcCases))
